@@ -197,6 +197,11 @@ def call_builtin(ex, name, args, kwargs, node):
         if isinstance(x, (Seq, ObjSeq, V.TupleSeq)):
             return x.len()
         raise OutOfSubset("len of %r" % (x,), node)
+    if name == "np.diag_indices_from":
+        m = args[0]
+        if isinstance(m, Seq) and m.concrete and all(isinstance(r_, Seq) and r_.concrete and len(r_.items) == len(m.items) for r_ in m.items):
+            return V.DiagIndex(len(m.items))
+        raise OutOfSubset("np.diag_indices_from of %r" % (m,), node)
     if name == "np.concatenate":
         # np.concatenate((a, b, ...)) of 1-D sequences (rows of a 2-D sample array count as elements, axis=0): the concatenation in order
         parts = args[0] if args else None
@@ -355,6 +360,11 @@ def call_builtin(ex, name, args, kwargs, node):
         return d <= V.to_z3(abs_, True) + V.to_z3(rel, True) * ay
     if name in ("math.isinf", "np.isinf"):
         return isinstance(args[0], V.Inf)
+    if name in ("np.zeros", "np.ones") and isinstance(args[0], Seq) and args[0].concrete and len(args[0].items) == 2 \
+            and all(isinstance(x_, int) and not isinstance(x_, bool) and 0 <= x_ <= 8 for x_ in args[0].items) and kwargs.get("dtype") is None:
+        # small 2-D array with concrete shape: a list of rows with element-wise content (M[i, j] reads and writes are exact)
+        c = Fraction(0 if name == "np.zeros" else 1)
+        return Seq("array", [Seq("array", [c for _ in range(args[0].items[1])]) for _ in range(args[0].items[0])])
     if name in ("np.zeros", "np.ones", "np.empty") and isinstance(args[0], Seq) and args[0].concrete and len(args[0].items) >= 2:
         # multi-dimensional array: an opaque python value (no element-wise reasoning); the shape is remembered (len(), lstsq)
         o = Opaque(S.const("ndarray", U))
